@@ -199,6 +199,7 @@ func (r *Replica) Exec(op *Op) J {
 		data := unhex(op.Data)
 		ev["key"] = r.queryKeyName(op.Path, data)
 		var resp abcitypes.ResponseQuery
+		SetStoreHeight(r.Height)
 		pm := Call(func() { resp = r.App.Core.Query(abcitypes.RequestQuery{Path: op.Path, Data: data, Height: op.QH}) })
 		ev["panic"] = pm
 		ev["inblock"] = r.InBlock
